@@ -133,14 +133,19 @@ class Mk:
 _SPRAY_SIZES = list(range(1, 130)) + [160, 192, 256, 384, 512, 768, 1024, 2048, 4096, 16384]
 
 
+_SPRAY_SMALL = list(range(0, 40))
+
+
 def spray(sign):
     """Fill freed heap chunks (numpy's small-block cache and malloc's bins) with the bit pattern of
     float32(+-1e30), so that whatever a kernel reads beyond a freshly allocated array differs
     between the two runs of a case."""
     val = np.float32(sign * 1e30)
     keep = []
-    for _ in range(3):
-        for n in _SPRAY_SIZES:
+    for rep in range(9):
+        # numpy keeps up to 7 freed blocks per byte size < 1024 in its own cache; nine per size make the
+        # surplus reach free(), where glibc notices chunk headers damaged by an earlier out-of-bounds write
+        for n in (_SPRAY_SIZES if rep < 3 else _SPRAY_SMALL):
             keep.append(np.full(n, val, dtype=np.float32))
     del keep
 
@@ -276,6 +281,7 @@ def child_case(case):
                 else:
                     d["exc"][v] = d["exc"].get(v, 0) + 1
     if not SAN:
+        spray(1)
         for layout in layouts:
             bad = compare_runs(outs[(layout, 1)], outs[(layout, -1)])
             if bad:     # must reproduce
@@ -370,7 +376,7 @@ def spawn(cases, extra_env=None):
     env = dict(os.environ)
     env.update({"OPENBLAS_NUM_THREADS": "1", "OMP_NUM_THREADS": "1", "MKL_NUM_THREADS": "1",
                 "PYTHONHASHSEED": "0"})
-    limit = 60 + CASE_LIMIT_S + (8 if SAN else 2) * len(cases)
+    limit = 120 + CASE_LIMIT_S + (8 if SAN else 2) * len(cases)
     t0 = time.time()
     try:
         pr = subprocess.run([sys.executable, os.path.abspath(__file__), "--cases-file", path],
@@ -482,7 +488,7 @@ def parent_main(args, only=None):
     else:
         cases = build_cases(args.tier, args.seed)
     # interleave entries over batches so that slow entries spread out
-    nb = max(1, (len(cases) + BATCH - 1) // BATCH)
+    nb = max(1, min(WORKERS, (len(cases) + BATCH - 1) // BATCH))
     batches = [cases[i::nb] for i in range(nb)]
     by_name = {c["name"]: c for c in cases}
     with ThreadPoolExecutor(max_workers=WORKERS) as ex:
